@@ -164,7 +164,9 @@ def range_rules(ctx, tree):
         a, b = unblock(ext["then"]), unblock(ext["else"])
         incl_e, excl_e = (b, a) if neg else (a, b)
         incl_s, excl_s = A.show(incl_e).replace(" ", ""), A.show(excl_e).replace(" ", "")
-        good = incl_s in (f"({p_to}+{step_name})", f"({step_name}+{p_to})") and excl_s == p_to
+        # `to + step`, also through an overflow-aware addition (saturating_add / wrapping_add / checked forms unwrapped with `to`)
+        adds = [f"({p_to}+{step_name})", f"({step_name}+{p_to})"] + [f"{x}.{m}({y})" for m in ("saturating_add", "wrapping_add") for x, y in ((p_to, step_name), (step_name, p_to))]
+        good = incl_s in adds and excl_s == p_to
         if good:
             ctx.ok("F5-range-inclusive", "through: to + step; to: to", None)
         else:
